@@ -558,9 +558,14 @@ func cancelReachesIdleHandlerOverTheWire(r *Run) {
 			case <-ctx.Done():
 				ended <- time.Now()
 				return ctx.Err()
-			case <-time.After(4 * time.Second):
+			case <-time.After(8 * time.Second):
 				return nil
 			}
+		}
+		// generous where cancellation is expected within milliseconds (only waited out on failure)
+		window := 5 * time.Second
+		if kind == "bidi-one" {
+			window = 2500 * time.Millisecond
 		}
 		svr := &scriptServer{}
 		svr.sstream = func(req *Msg, ss grpchantesting.TestService_ServerStreamServer) error { return wait(ss.Context()) }
@@ -603,7 +608,7 @@ func cancelReachesIdleHandlerOverTheWire(r *Run) {
 				case t1 := <-ended:
 					res = "cancelled"
 					_ = t1.Sub(t0)
-				case <-time.After(2500 * time.Millisecond):
+				case <-time.After(window):
 					res = "handler-context-still-live"
 				}
 			case <-time.After(3 * time.Second):
